@@ -43,3 +43,47 @@ Definition incl_upto (sigma : list N) (n : nat) (d b : part) : bool :=
 (* first counterexample word, if any *)
 Definition incl_counterexample (sigma : list N) (n : nat) (d b : part) : option (list N) :=
   find (fun w => accepts d w && negb (accepts b w)) (words_upto sigma n).
+
+(* ---- a group restricting one element particle -------------------------------------------------------------
+   XsdGroup.is_element_restriction, sequence case (XSD 1.1; groups.py, after fix cfec1b5): every item of the derived
+   sequence is a leaf that cannot occur (maxOccurs = 0) or matches only what the base element matches, and the summed
+   occurrences lie within the base element's range. *)
+Definition item := (leaf * nat * option nat)%type.
+Definition it_leaf (i : item) : leaf := fst (fst i).
+Definition it_min (i : item) : nat := snd (fst i).
+Definition it_max (i : item) : option nat := snd i.
+
+Fixpoint items_parts (pid : nat) (its : list item) : parts :=
+  match its with
+  | [] => PNil
+  | i :: r => PCons (PLeaf pid (it_leaf i) (it_min i) (it_max i)) (items_parts (S pid) r)
+  end.
+
+Definition leaf_subb (l l' : leaf) : bool :=
+  match l, l' with
+  | Pos a, Pos b => forallb (fun x => memb x b) a
+  | Pos a, Neg b => forallb (fun x => negb (memb x b)) a
+  | Neg a, Neg b => forallb (fun x => memb x a) b
+  | Neg _, Pos _ => false
+  end.
+
+Definition sum_min (its : list item) : nat := fold_right (fun i a => it_min i + a) 0 its.
+Fixpoint sum_max (its : list item) : option nat :=
+  match its with
+  | [] => Some 0
+  | i :: r => match it_max i, sum_max r with Some a, Some b => Some (a + b) | _, _ => None end
+  end.
+Definition max_le (a b : option nat) : bool :=
+  match b with None => true | Some n => match a with Some m => Nat.leb m n | None => false end end.
+
+Definition item_ok (l' : leaf) (i : item) : bool :=
+  match it_max i with Some 0 => true | _ => leaf_subb (it_leaf i) l' end.
+
+Definition elem_restriction (its : list item) (l' : leaf) (mn' : nat) (mx' : option nat) : bool :=
+  forallb (item_ok l') its && Nat.leb mn' (sum_min its) && max_le (sum_max its) mx'.
+
+(* the rule before the fix: every optional item was accepted, whatever it matches *)
+Definition item_ok_old (l' : leaf) (i : item) : bool :=
+  match it_min i with 0 => true | _ => leaf_subb (it_leaf i) l' end.
+Definition elem_restriction_old (its : list item) (l' : leaf) (mn' : nat) (mx' : option nat) : bool :=
+  forallb (item_ok_old l') its && Nat.leb mn' (sum_min its) && max_le (sum_max its) mx'.
